@@ -114,6 +114,13 @@ class RdmsOps:
         keys = [x for x in ('uid', 'grp', 'extra', 'pos', 'index') if x in d]
         return keys[k % len(keys)]
 
+    def _byarg(self, by, o):
+        """the documented default: by=None selects by the 'index' descriptor"""
+        if by == 'index' and o['a'][5] % 2 == 0:
+            self.ctx.probe('by_none')
+            return None
+        return by
+
     def _raise(self, opname, e, prop='C10'):
         self.pool.report(prop, 'rdms_twin.raises', f'{opname}:raises:{type(e).__name__}',
                          f'{opname} raised {type(e).__name__}: {e} on admissible arguments')
@@ -215,7 +222,7 @@ class RdmsOps:
         listed = list(vals) + ([vals[0]] if o['a'][3] % 4 == 0 else [])      # a value named twice selects each match once
         arg = vals[0] if (len(listed) == 1 and o['flag']) else (np.array(listed) if o['flag2'] else list(listed))
         try:
-            res = src.obj.subset(by, arg)
+            res = src.obj.subset(self._byarg(by, o), arg)
         except Exception as e:
             return self._raise('subset', e)
         sem = None
@@ -234,7 +241,7 @@ class RdmsOps:
             vals = vals[:1]
             arg = vals[0]          # a scalar value (int or multi-character string)
         try:
-            res = src.obj.subsample(by, arg)
+            res = src.obj.subsample(self._byarg(by, o), arg)
         except Exception as e:
             return self._raise('subsample', e)
         sem = None
@@ -256,7 +263,7 @@ class RdmsOps:
         if isinstance(arg, str):
             arg = [arg]     # a bare string is iterated character-wise by the library: pass strings in a list
         try:
-            res = src.obj.subset_pattern(by, arg)
+            res = src.obj.subset_pattern(self._byarg(by, o), arg)
         except Exception as e:
             return self._raise('subset_pattern', e)
         sem = None
@@ -272,7 +279,7 @@ class RdmsOps:
         gv, vals = self._values(src.obj, 'pattern', by, o, True)
         arg = np.array(vals) if o['flag2'] else list(vals)
         try:
-            res = src.obj.subsample_pattern(by, arg)
+            res = src.obj.subsample_pattern(self._byarg(by, o), arg)
         except Exception as e:
             return self._raise('subsample_pattern', e)
         sem = None
